@@ -1188,8 +1188,8 @@ pub fn run(run: &mut Run) {
         },
         test_large_dict,
     );
-    run.require_class("large_dictionaries", "dictionary_file_over_8KiB", (n / 2) as u64);
-    run.require_class("large_dictionaries", "dictionary_is_a_symbolic_link", (n / 8) as u64);
+    run.require_class("large_dictionaries", "dictionary_file_over_8KiB", (n / 3) as u64);
+    run.require_class("large_dictionaries", "dictionary_is_a_symbolic_link", (n / 12) as u64);
     let faults = vec![
         CrashCase { pre_words: 800, new_word: "frobnix".into(), user: true },
         CrashCase { pre_words: 300, new_word: "naïvetéx".into(), user: false },
